@@ -15,6 +15,9 @@ from .astutil import (MUTATOR_METHODS, COPY_METHODS, COPY_FUNCS, VIEW_METHODS, V
                       call_name, func_params, walk_no_nested)
 
 
+_OVERWRITE = {"overwrite_a": 0, "overwrite_ab": 0, "overwrite_x": 0, "overwrite_b": 1}
+
+
 def _is_view_subscript(sl: ast.expr) -> bool:
     """x[sl] is a view (basic slicing) rather than an element / fancy-index copy."""
     if isinstance(sl, ast.Slice):
@@ -213,6 +216,9 @@ class FnAlias:
                         for kw in sub.keywords:
                             if kw.arg == "out":
                                 out.append((n, sub, kw.value, "out="))
+                            # SciPy's LAPACK wrappers: overwrite_a / overwrite_b = True let the routine factorise / solve inside the given array
+                            elif kw.arg in _OVERWRITE and isinstance(kw.value, ast.Constant) and kw.value.value is True and len(sub.args) > _OVERWRITE[kw.arg]:
+                                out.append((n, sub, sub.args[_OVERWRITE[kw.arg]], f"{kw.arg}=True"))
         return out
 
     def mutated_roots(self) -> List[Tuple[str, Node, ast.AST, str]]:
